@@ -26,10 +26,28 @@ func NewRefType(name string, scope Scope) signature.Type {
 // with a name describing the error.
 func (r *RefType) Signature() string {
 	t, err := r.Scope.Search(r.Name)
-	if err == nil {
+	if err == nil && !r.enter() {
+		err = fmt.Errorf("recursive type: %s", r.Name)
+	} else if err == nil {
+		defer r.leave()
 		return t.Signature()
 	}
 	return signature.NewStructType(err.Error(), nil).Signature()
+}
+
+// enter returns false if the referenced type is already being visited:
+// that is if the type refers to itself.
+func (r *RefType) enter() bool {
+	if scope, ok := r.Scope.(*scopeImpl); ok {
+		return scope.enter(r.Name)
+	}
+	return true
+}
+
+func (r *RefType) leave() {
+	if scope, ok := r.Scope.(*scopeImpl); ok {
+		scope.leave(r.Name)
+	}
 }
 
 // SignatureIDL returns the IDL signature of the referenced type. If the
@@ -114,7 +132,8 @@ func (r *RefType) Reader() signature.TypeReader {
 
 func (r *RefType) Type() reflect.Type {
 	t, err := r.Scope.Search(r.Name)
-	if err == nil {
+	if err == nil && r.enter() {
+		defer r.leave()
 		return t.Type()
 	}
 	return reflect.TypeOf((*error)(nil))
